@@ -380,6 +380,10 @@ class Program:
         with open(path) as f:
             d = json.load(f)
         self.types = d['types']
+        for tid, t in self.types.items():
+            if t.get('k') == 'named' and t.get('under') == tid:
+                # alias of a predeclared interface type (any)
+                self.types[tid] = {'k': 'iface'}
         self.funcs = {k: Func(v) for k, v in d['functions'].items()}
         self.globals = d['globals']
         self.methods = d['methods']
@@ -440,6 +444,8 @@ class State:
 
 
 class Obligation:
+    mark = None
+
     def __init__(self, kind, name, pos, pc, cond, extra=None):
         self.kind = kind    # 'assert' | 'index' | 'nil' | 'div0' | 'panic' | 'reach' | 'exit'
         self.name = name
@@ -470,6 +476,8 @@ class Executor:
         self.trace = False
         self.objtype = {}
         self.deadline = None
+        self.mark = None
+        self.exit_allowed = False
         install_default_intrinsics(self)
 
     # ------------------------------------------------------------ objects
@@ -638,7 +646,11 @@ class Executor:
         """record that `cond` must hold on this path; then assume it"""
         if cond is True:
             return
-        self.obligations.append(Obligation(kind, name, pos, st.pc, cond, extra))
+        if cond is not False and tobool(cond).get_id() in st.pcids:
+            return  # already assumed on this path (e.g. the same bound re-checked in every iteration of a fill loop)
+        ob = Obligation(kind, name, pos, st.pc, cond, extra)
+        ob.mark = self.mark
+        self.obligations.append(ob)
         if cond is False:
             st.assume(z3.BoolVal(False))
         else:
@@ -762,6 +774,8 @@ class Executor:
                 if ent is None:
                     ent = iters[b] = [pclen, 0, 0]
                 if pclen > ent[0]:
+                    # the path condition grew since the previous visit of this header: an iteration decided symbolically
+                    ent[0] = pclen
                     ent[1] += 1
                     if ent[1] > self.max_unwind:
                         raise UnwindError('%s block %d exceeds unwind %d' % (fn.name, b, self.max_unwind))
@@ -2131,7 +2145,21 @@ def install_default_intrinsics(ex):
 
     def os_exit(ex, st, args, pos):
         ex.events.append(('exit', st.pc, pos))
+        if ex.exit_allowed:
+            ex.obligations.append(Obligation('reach', 'os.Exit reached', pos, st.pc, True))
+        else:
+            ex.obligations.append(Obligation('exit', 'unexpected os.Exit', pos, st.pc, False))
         return None, None
+
+    def vmark(ex, st, args, pos):
+        ex.mark = const_name(args[0])
+        return None, st
+    I['v:vMark'] = vmark
+
+    def vallowexit(ex, st, args, pos):
+        ex.exit_allowed = True
+        return None, st
+    I['v:vAllowExit'] = vallowexit
     I['os.Exit'] = os_exit
 
 
